@@ -225,3 +225,45 @@ func modAll(f *ref.Field, v []*big.Int) []*big.Int {
 	}
 	return out
 }
+
+// reduced returns a copy with every value reduced modulo p (what gnark's witness
+// construction does; the test engine does not reduce inputs itself).
+func (b *insBatch) reduced(f *ref.Field) *insBatch {
+	m := func(s string) string { return f.Mod(bigs(s)).String() }
+	n := *b
+	n.Hash, n.Start, n.Pre, n.Post = m(b.Hash), m(b.Start), m(b.Pre), m(b.Post)
+	n.Comms = nil
+	for _, x := range b.Comms {
+		n.Comms = append(n.Comms, m(x))
+	}
+	n.Proofs = nil
+	for _, pr := range b.Proofs {
+		var q []string
+		for _, x := range pr {
+			q = append(q, m(x))
+		}
+		n.Proofs = append(n.Proofs, q)
+	}
+	return &n
+}
+
+func (b *delBatch) reduced(f *ref.Field) *delBatch {
+	m := func(s string) string { return f.Mod(bigs(s)).String() }
+	n := *b
+	n.Hash, n.Pre, n.Post = m(b.Hash), m(b.Pre), m(b.Post)
+	n.Idx, n.Items, n.Proofs = nil, nil, nil
+	for _, x := range b.Idx {
+		n.Idx = append(n.Idx, m(x))
+	}
+	for _, x := range b.Items {
+		n.Items = append(n.Items, m(x))
+	}
+	for _, pr := range b.Proofs {
+		var q []string
+		for _, x := range pr {
+			q = append(q, m(x))
+		}
+		n.Proofs = append(n.Proofs, q)
+	}
+	return &n
+}
